@@ -2851,6 +2851,9 @@ class PGPKeyring(collections_abc.Container, collections_abc.Iterable, collection
                     identifier = issuer
                     break
 
+            else:
+                raise KeyError(identifier)
+
         if isinstance(identifier, PGPSignature):
             identifier = identifier.signer
 
